@@ -39,7 +39,7 @@ Inductive jcase :=
 | CInfo (v : string) (raw : json float)
 | CNow (v : Z * bool) (raw : json float)
 | CUnit (raw : json float)
-| CUInsert (v : uorder float) (raw : json float)
+| CUInsert (v : option N * uorder float) (raw : json float)   (* the Order as the client sent it: order_id may be preset *)
 | CUDelete (v : N) (raw : json float)
 | CJTick (v : jtick (F:=float)) (raw : json float)
 | CJInsert (v : jwire float) (raw : json float)
@@ -78,7 +78,16 @@ Definition jcase_mask (qk : quirks) (c : jcase) : N :=
   | CInfo v raw => chk enc_info dec_info String.eqb v raw
   | CNow v raw => chk enc_now dec_now (pair_eqb Z.eqb Bool.eqb) v raw
   | CUnit raw => chk enc_unit dec_unit (fun _ _ => true) tt raw
-  | CUInsert v raw => chk enc_uinsert dec_uinsert uorder_eqb v raw
+  | CUInsert v raw =>
+      (* the request body carries the whole Order, a preset order_id included (the exchange overwrites it on
+         admission); enc_uinsert / dec_uinsert of Model/Json.v are the order_id = None instance of this *)
+      N.lor (chk (fun p : option N * uorder float => JObj [("order"%string, enc_uorder p)])
+                 (fun j => match j with JObj f => obind (jget f "order"%string) dec_uorder | _ => None end)
+                 (pair_eqb (opt_eqb N.eqb) uorder_eqb) v raw)
+            (match fst v with
+             | None => chk enc_uinsert dec_uinsert uorder_eqb (snd v) raw
+             | Some _ => bit J_DECODE (match dec_uinsert raw with Some o => uorder_eqb (snd v) o | None => false end)
+             end)
   | CUDelete v raw => chk enc_udelete dec_udelete N.eqb v raw
   | CJTick v raw =>
       let '(h, (fl, os, tr)) := v in
